@@ -55,7 +55,7 @@ func setup() *Engine {
 		}
 		// clauses that no longer type-check against the current code are dropped (their obligations
 		// are reported as failed: "stale contract"), everything else is still checked
-		specErr := regexp.MustCompile(`(/repo/[^ :]*zz_verif_spec\.go):(\d+):\d+: (.*)`)
+		specErr := regexp.MustCompile(`(` + regexp.QuoteMeta(repoDir) + `/[^ :]*zz_verif_spec\.go):(\d+):\d+: (.*)`)
 		found := false
 		for _, ln := range strings.Split(err.Error(), "\n") {
 			m := specErr.FindStringSubmatch(ln)
@@ -343,6 +343,10 @@ func cmdCheck(args []string) {
 	}
 	jobs := make([]*job, len(ps.Units))
 	for i, us := range ps.Units {
+		if nk, ok := e.renamedKey[us.Fn]; ok && e.funcs[us.Fn] == nil {
+			ps.Units[i].Fn = nk
+			us.Fn = nk
+		}
 		fn := e.funcs[us.Fn]
 		if fn == nil {
 			missing = append(missing, us.Fn)
@@ -408,7 +412,16 @@ func cmdCheck(args []string) {
 				isKnown = true
 			}
 		}
-		if ob.Result == "sat" || baseline[ob.Name] || baselineHas(baseline, ob.Name) || isKnown {
+		blName := ob.Name
+		for nk, ok := range e.renamedNew {
+			blName = strings.Replace(blName, nk+"#", ok+"#", 1)
+		}
+		if ob.Unit.preStale && !isKnown {
+			// the unit was verified without a precondition that could not be evaluated: what fails in it is undecided
+			undecided = append(undecided, ob)
+			continue
+		}
+		if ob.Result == "sat" || baseline[blName] || baselineHas(baseline, blName) || isKnown {
 			failed = append(failed, ob)
 		} else {
 			undecided = append(undecided, ob)
@@ -481,17 +494,17 @@ func cmdCheck(args []string) {
 		fmt.Printf("UNDECIDED obligation=%s result=%s (not in baseline; not counted as discharged)\n", ob.Name, ob.Result)
 	}
 	if len(missing) > 0 {
-		fmt.Printf("MISSING-FUNCTIONS: %s (contract anchors no longer exist)\n", strings.Join(missing, ", "))
-		if len(baseline) > 0 {
-			// a function under contract disappeared: every baseline obligation of it is now unproved
-			for _, m := range missing {
-				path := filepath.Join(replayRoot(), *prop, sanitize(m)+".json")
-				os.MkdirAll(filepath.Dir(path), 0o755)
-				os.WriteFile(path, []byte(fmt.Sprintf("{\"property\":%q,\"obligation\":\"function-under-contract-missing\",\"function\":%q}\n", *prop, m)), 0o644)
-				fmt.Printf("VIOLATION property=%s replay=%s no-failing-input-found\n", *prop, path)
-				violations++
-				exit = 1
-			}
+		// A function under contract is gone and no renamed successor was found (typically: inlined into its caller, whose own
+		// obligations are proved over the inlined code). Its contract can no longer be checked: undecided, not violated -
+		// nothing here failed. The obligations it used to contribute are listed below as no longer generated.
+		fmt.Printf("MISSING-FUNCTIONS: %s (their contracts are stale: not checked, not counted as discharged)\n", strings.Join(missing, ", "))
+	}
+	for _, u := range units {
+		for _, s := range u.staleClauses {
+			fmt.Printf("STALE-CLAUSE (dropped, undecided): %s\n", s)
+		}
+		for _, s := range u.rebinds {
+			fmt.Printf("RE-BOUND: %s\n", s)
 		}
 	}
 	// baseline obligations that vanished
@@ -516,7 +529,7 @@ func cmdCheck(args []string) {
 	}
 	wall := time.Since(t0).Seconds()
 	// known findings are recorded defects, not proof obligations that are claimed: they are counted separately
-	writeEvidence(*prop, *tier, seed, ps, units, reports, total-knownHits, discharged, violations, knownHits, len(undecided), vacuous, solverMs, agreement, wall, e)
+	writeEvidence(*prop, *tier, seed, ps, units, reports, total-knownHits, discharged, violations, knownHits, len(undecided), vacuous, solverMs, agreement, wall, e, missing)
 	if *writeBaseline {
 		bl := map[string][]string{}
 		data, err := os.ReadFile("/verif/baseline/obligations.json")
@@ -556,8 +569,12 @@ func writeReplay(prop string, ob *Obligation) string {
 }
 
 func writeEvidence(prop, tier string, seed int, ps *propSpec, units []*Unit, reports []obReport, total, discharged, violations, knownHits, undecided, vacuous int,
-	solverMs map[string]int64, agreement map[string]int, wall float64, e *Engine) {
+	solverMs map[string]int64, agreement map[string]int, wall float64, e *Engine, missingFns []string) {
 	var fns []string
+	rebound, staleCl := []string{}, []string{}
+	if missingFns == nil {
+		missingFns = []string{}
+	}
 	externs := map[string]bool{}
 	defaults := map[string]bool{}
 	dyn := map[string]bool{}
@@ -583,6 +600,8 @@ func writeEvidence(prop, tier string, seed int, ps *propSpec, units []*Unit, rep
 			contractsUsed[k] = true
 		}
 		unsupported = append(unsupported, u.unsupported...)
+		rebound = append(rebound, u.rebinds...)
+		staleCl = append(staleCl, u.staleClauses...)
 		for _, g := range u.globalInvsUsed {
 			ginv[g] = true
 		}
@@ -641,6 +660,9 @@ func writeEvidence(prop, tier string, seed int, ps *propSpec, units []*Unit, rep
 			"undecided":                undecided,
 			"vacuity":                  map[string]interface{}{"canaries": len(units), "vacuous_units": vacuous},
 			"stale_contracts":          e.stale,
+			"stale_clauses_undecided":  staleCl,
+			"contracts_rebound":        rebound,
+			"functions_missing":        missingFns,
 			"explanation":              "every obligation is a verification condition generated from /repo's current go/ssa and discharged (unsat of its negation) by an SMT solver",
 		},
 	}
